@@ -5,7 +5,7 @@ import PEval.Model.Config
 Driver handler for C15 (threshold normalisation, configuration validation).
 
 `PyVal` on the wire: `null` = `None`, JSON booleans = `bool`, arrays = `list`, `{"q": "p/q"}` = a
-number, `{"s": "..."}` = a `str`.  Dictionaries travel as arrays of `[key, value]` pairs.
+number, `{"s": "..."}` = a `str`, `{"x": "tag"}` = any other object (`PyVal.other`).  Dictionaries travel as arrays of `[key, value]` pairs.
 -/
 open Lean
 
@@ -24,9 +24,12 @@ partial def decodeVal (j : Json) : Except String PyVal :=
     | .ok r => do
       let q ← asRat r
       pure (.num q)
-    | .error _ => do
-      let s ← j.getObjValAs? String "s"
-      pure (.str s)
+    | .error _ =>
+      match j.getObjValAs? String "s" with
+      | .ok s => pure (.str s)
+      | .error _ => do
+        let t ← j.getObjValAs? String "x"
+        pure (.other t)
   | _ => throw "bad PyVal"
 
 partial def encodeVal : PyVal → Json
@@ -34,6 +37,7 @@ partial def encodeVal : PyVal → Json
   | .bool b => Json.bool b
   | .num q => Json.mkObj [("q", jRat q)]
   | .str s => Json.mkObj [("s", Json.str s)]
+  | .other t => Json.mkObj [("x", Json.str t)]
   | .list xs => Json.arr (xs.map encodeVal).toArray
 
 def decodeDict (j : Json) : Except String Dict := do
@@ -76,6 +80,10 @@ def handle : Json → Except String Json := fun j => do
     let v ← decodeVal (← j.getObjVal? "v")
     let n ← getNat j "n"
     pure (resVal (checkThresholds v n))
+  | "check_nested_thresholds" => do
+    let v ← decodeVal (← j.getObjVal? "v")
+    let n ← getNat j "n"
+    pure (resVal (checkNestedThresholds v n))
   | "perception_config" => do
     let d ← decodeDict (← j.getObjVal? "d")
     let frames ← getStrList j "frames"
